@@ -92,6 +92,8 @@ pub struct Runner<'a> {
   shadow: Vec<Option<Val>>,
   known: BTreeSet<Tid>,
   ledger: Vec<Option<ExecRec>>,
+  /// The record that each task's latest execution replaced.
+  prev: Vec<Option<ExecRec>>,
   ever_completed: Vec<bool>,
   stamps: Vec<Option<StampInfo>>,
   changed: BTreeSet<usize>,
@@ -109,6 +111,11 @@ pub struct Runner<'a> {
   pub harness_error: Option<String>,
   pub reuse_and_exec: bool,
   pub nontrivial: bool,
+  pub errors_fired: u64,
+  pub crashes_fired: u64,
+  pub td_after_abort_returned: u64,
+  pub bu_nontrivial: bool,
+  pub diag_aborts: u64,
   trk_seen: usize,
 }
 
@@ -146,9 +153,9 @@ impl<'a> Runner<'a> {
     let pie = Pie::with_tracker(CompositeTracker::new(Rec::new(true), CompositeTracker::new(EventTracker::default(), Rec::new(false))));
     let nres = prog.resources.len();
     Runner {
-      scn, prog, prop, pie, shadow: vec![None; nres], known: BTreeSet::new(), ledger: vec![None; n], ever_completed: vec![false; n], stamps: vec![None],
+      scn, prog, prop, pie, shadow: vec![None; nres], known: BTreeSet::new(), ledger: vec![None; n], prev: vec![None; n], ever_completed: vec![false; n], stamps: vec![None],
       changed: BTreeSet::new(), all_consistent: true, last_td: None, last_bu_complete: false, session_no: 0, aborted_before: false, aborted_earlier: false, abort_dirty: false,
-      vs: vec![], stats: Stats::default(), trace: 0xcbf2_9ce4_8422_2325, harness_error: None, reuse_and_exec: false, nontrivial: false, trk_seen: 0,
+      vs: vec![], stats: Stats::default(), trace: 0xcbf2_9ce4_8422_2325, harness_error: None, reuse_and_exec: false, nontrivial: false, errors_fired: 0, crashes_fired: 0, td_after_abort_returned: 0, bu_nontrivial: false, diag_aborts: 0, trk_seen: 0,
     }
   }
 
@@ -174,7 +181,7 @@ impl<'a> Runner<'a> {
     }
     self.changed.clear();
     for (i, step) in scn.steps.iter().enumerate() {
-      if !self.vs.is_empty() || self.harness_error.is_some() { break; }
+      if self.vs.iter().any(|v| v.concerns(self.prop)) || self.vs.len() >= 4 || self.harness_error.is_some() { break; }
       fnv(&mut self.trace, i as u64 + 77);
       let fault = scn.faults.get(&i).cloned().unwrap_or_default();
       match step {
@@ -297,7 +304,7 @@ impl<'a> Runner<'a> {
       SessionKind::BottomUp { then_require, .. } => { for t in then_require { if slice.iter().any(|e| matches!(e, Ev::RootStart { t: x } if x == t)) { self.known.insert(*t); } } }
     }
 
-    let analysis = self.analyse(step, &kind, &slice, &res, is_repeat);
+    let analysis = self.analyse(step, &kind, &slice, &res, is_repeat, fault_free);
 
     // Abort handling.
     if let Some(abort) = &res.abort {
@@ -311,8 +318,12 @@ impl<'a> Runner<'a> {
       if real != expect { self.viol(&["C19"], "abort-world", step, format!("after the aborted build the resources hold {:?}, the writes that happened give {:?}", real, expect)); }
       self.stats.hit(&format!("abort_{:?}", abort.kind));
       fnv(&mut self.trace, 0xAB0 + abort.kind.clone() as u64);
+      let injected_errors = with_sim(|s| s.errors_injected.len());
+      if injected_errors > 0 && abort.kind != AbortKind::InjectedCrash {
+        self.viol(&["C18"], "check-error-aborted-build", step, format!("a checker error during validation aborted the build: {}", abort.info.short()));
+      }
       match abort.kind {
-        AbortKind::InjectedCrash => {}
+        AbortKind::InjectedCrash => { self.crashes_fired += 1; self.stats.hit("fault_crash_fired"); }
         AbortKind::TaskPanic => { if prog.class == Class::W { self.harness_error = Some(format!("class W program panicked: {}", abort.info.short())); } }
         AbortKind::Guard => {
           self.viol(&["C07"], "unbounded-recursion", step, format!("execution depth / count guard fired: {}", abort.info.short()));
@@ -322,7 +333,8 @@ impl<'a> Runner<'a> {
           self.viol(props, "internal-panic", step, format!("build failed with an internal error: {}", abort.info.short()));
         }
         AbortKind::Cycle | AbortKind::Hidden | AbortKind::Overlap => {
-          self.judge_diagnostic_abort(step, abort, &analysis);
+          self.diag_aborts += 1;
+          self.judge_diagnostic_abort(step, abort, &analysis, &before);
         }
         AbortKind::Other => { self.harness_error = Some(format!("unexpected panic outside the repository: {}", abort.info.short())); }
       }
@@ -333,7 +345,7 @@ impl<'a> Runner<'a> {
       return false;
     }
 
-    if !self.vs.is_empty() { return true; }
+    if self.vs.iter().any(|v| v.concerns(self.prop)) { return true; }
 
     // The session returned: from-scratch equality.
     let roots: Vec<Tid> = res.roots_out.iter().map(|(t, _)| *t).collect();
@@ -356,7 +368,8 @@ impl<'a> Runner<'a> {
     for t in clean.order.iter() { self.known.insert(*t); }
     let executed: Vec<Tid> = slice.iter().filter_map(|e| if let Ev::ExecStart { t, .. } = e { Some(*t) } else { None }).collect();
     for t in executed.iter() { self.known.insert(*t); }
-    if !executed.is_empty() && executed.len() < clean.order.len() { self.reuse_and_exec = true; }
+    if !executed.is_empty() && executed.len() < clean.order.len() { self.reuse_and_exec = true; if matches!(kind, SessionKind::BottomUp { .. }) { self.bu_nontrivial = true; } }
+    if self.aborted_before && matches!(kind, SessionKind::TopDown(_)) { self.td_after_abort_returned += 1; }
 
     // Bottom-up builds after an abort are claimed by no property (C03 does not quantify over aborts, C19 speaks about
     // later top-down builds) until a returning session has required all known tasks again.
@@ -412,12 +425,21 @@ impl<'a> Runner<'a> {
         if all { self.changed.clear(); self.all_consistent = true; self.abort_dirty = false; }
         else {
           // Resources written by tasks in a partial top-down session count as changed for later bottom-up reports.
-          for e in slice.iter() { if let Ev::ResSet { res, old, new } = e { if old != new { if let Some(i) = prog.res_index(*res) { self.changed.insert(i); } } } }
+          for e in slice.iter() { if let Ev::ResSet { res, .. } = e { if let Some(i) = prog.res_index(*res) { self.changed.insert(i); } } }
         }
         self.last_bu_complete = false;
       }
       SessionKind::BottomUp { complete, .. } => {
         if *complete { self.changed.clear(); self.all_consistent = true; self.last_bu_complete = true; }
+        // Re-executions in the top-down phase after the build (possible under injected checker errors) are a partial
+        // top-down session: what they wrote counts as changed.
+        let bu_end = slice.iter().position(|e| matches!(e, Ev::BuEnd)).unwrap_or(slice.len());
+        let mut reexec = false;
+        for e in slice[bu_end..].iter() {
+          if let Ev::ExecStart { n, .. } = e { if *n > 1 { reexec = true; } }
+          if let Ev::ResSet { res, .. } = e { if reexec { if let Some(i) = prog.res_index(*res) { self.changed.insert(i); } } }
+        }
+        if reexec { self.last_bu_complete = false; self.all_consistent = false; }
       }
     }
     true
@@ -427,14 +449,27 @@ impl<'a> Runner<'a> {
   /// A build aborted with a cycle / hidden-dependency / overlapping-write diagnostic: decide whether the violation
   /// exists in the current state (fine), is explained by recorded dependencies of tasks that were not yet validated
   /// in this session (stale-edge signature: a listed known finding or a violation), or is unexplained (violation).
-  fn judge_diagnostic_abort(&mut self, step: usize, abort: &Abort, an: &Analysis) {
+  fn judge_diagnostic_abort(&mut self, step: usize, abort: &Abort, an: &Analysis, before: &[Option<Val>]) {
     let prog = self.prog.clone();
     let world = self.real_world();
     let mut clean = Clean::new(&prog, world);
     let mut all: Vec<Tid> = self.known.iter().copied().collect();
     for t in an.exec_stack.iter() { if !all.contains(t) { all.push(*t); } }
     for t in all.iter() { clean.require(*t); }
-    let exists_now = clean.ill.iter().any(|i| match abort.kind { AbortKind::Cycle => i.is_cycle(), AbortKind::Hidden => i.is_hidden(), AbortKind::Overlap => i.is_overlap(), _ => false });
+    // A from-scratch build meets violations in an order that depends on the order of its roots: also try the reverse.
+    let mut clean_rev = Clean::new(&prog, self.real_world());
+    for t in all.iter().rev() { clean_rev.require(*t); }
+    // The aborted build may itself have modified resources: the state in which it started counts as well.
+    let mut clean_b = Clean::new(&prog, before.to_vec());
+    for t in all.iter() { clean_b.require(*t); }
+    let mut clean_b_rev = Clean::new(&prog, before.to_vec());
+    for t in all.iter().rev() { clean_b_rev.require(*t); }
+    let exists_now = clean.ill.iter().chain(clean_rev.ill.iter()).chain(clean_b.ill.iter()).chain(clean_b_rev.ill.iter()).any(|i| match abort.kind {
+      AbortKind::Cycle => i.is_cycle(),
+      AbortKind::Hidden => i.is_hidden() || matches!(i, Ill::ReadBeforeWrite { .. }),
+      AbortKind::Overlap => i.is_overlap(),
+      _ => false,
+    });
     if exists_now { self.stats.hit("abort_for_existing_violation"); return; }
     let props: Vec<&str> = if self.aborted_earlier { vec!["C19", "C20"] } else { vec!["C20"] };
     let Some((t, op, target)) = an.open_op else {
@@ -453,6 +488,15 @@ impl<'a> Runner<'a> {
       (AbortKind::Overlap, OpK::Write | OpK::WriteVia, Target::Res(r)) => {
         if let Some(w) = (0..ntasks).find(|x| *x != t && writes(*x, r)) {
           if !fresh(w) { cause = Some("overlap:stale-writer".into()); }
+        } else {
+          let own_prev = self.prev[t].as_ref().map(|e| e.deps.iter().any(|d| d.kind == DepKind::Write && d.target == Target::Res(r))).unwrap_or(false);
+          let own_now = self.ledger[t].as_ref().map(|e| e.deps.iter().any(|d| d.kind == DepKind::Write && d.target == Target::Res(r))).unwrap_or(false);
+          if own_prev && !own_now {
+            let mut p2 = props.clone();
+            p2.push("C06");
+            self.viol(&p2, "overlap-with-own-earlier-write", step, format!("re-execution of task {t}, the only recorded writer of {:?}, was reported as an overlapping write: {}", r, abort.info.short()));
+            return;
+          }
         }
       }
       (AbortKind::Hidden, OpK::Write | OpK::WriteVia, Target::Res(r)) => {
@@ -511,12 +555,12 @@ impl<'a> Runner<'a> {
   }
 
   /// Walks the log slice of one session: updates the ledger and evaluates the log-based oracles.
-  fn analyse(&mut self, step: usize, kind: &SessionKind, slice: &[Ev], res: &SessionResult, is_repeat: bool) -> Analysis {
+  fn analyse(&mut self, step: usize, kind: &SessionKind, slice: &[Ev], res: &SessionResult, is_repeat: bool, fault_free: bool) -> Analysis {
     let prog = self.prog.clone();
     let ntasks = prog.tasks.len();
     let aborted = res.abort.is_some();
     let is_bu_session = matches!(kind, SessionKind::BottomUp { .. });
-    let probe_after_bu = matches!(kind, SessionKind::TopDown(_)) && self.last_bu_complete && self.changed.is_empty();
+    let probe_after_bu = matches!(kind, SessionKind::TopDown(_)) && self.last_bu_complete && self.changed.is_empty() && fault_free;
     let mut in_bu_phase = false;
     let mut exec_count = vec![0u32; ntasks];
     let mut executed: BTreeSet<Tid> = BTreeSet::new();
@@ -589,6 +633,7 @@ impl<'a> Runner<'a> {
           pending.remove(t);
           pass[*t] = Pass::default();
           old[*t] = self.ledger[*t].take();
+          self.prev[*t] = old[*t].clone();
           self.ledger[*t] = Some(ExecRec { req_issued: vec![], n: *n, completed: false, out: None, deps: vec![], session: self.session_no });
           executed.insert(*t);
           exec_stack.push(*t);
@@ -651,6 +696,29 @@ impl<'a> Runner<'a> {
             }
           }
           if matches!(op, OpK::Write | OpK::WriteVia) && *ok { write_fn_done = None; }
+          if let (true, Target::Res(r)) = (*ok, target) {
+            // Online monitors: an access that returns must not leave a hidden dependency or an overlap in the records.
+            let none_old: Vec<Option<ExecRec>> = vec![None; ntasks];
+            let writes = |x: Tid| self.ledger[x].as_ref().map(|e| e.deps.iter().any(|d| d.kind == DepKind::Write && d.target == Target::Res(r))).unwrap_or(false);
+            let reads = |x: Tid| self.ledger[x].as_ref().map(|e| e.deps.iter().any(|d| d.kind == DepKind::Read && d.target == Target::Res(r))).unwrap_or(false);
+            if op == OpK::Read {
+              if let Some(w) = (0..ntasks).find(|x| *x != *t && writes(*x)) {
+                if !ledger_path(&self.ledger, &none_old, *t, w) {
+                  v(&["C05"], "hidden-read-missed", format!("task {t} read {:?}, which task {w} wrote in its latest execution, without (transitively) requiring it, and the read returned", r));
+                }
+              }
+            } else {
+              if let Some(w) = (0..ntasks).find(|x| *x != *t && writes(*x)) {
+                v(&["C06"], "overlap-missed", format!("task {t} wrote {:?}, whose recorded writer is task {w}, and the write returned", r));
+              }
+              for x in (0..ntasks).filter(|x| *x != *t && reads(*x)) {
+                if !ledger_path(&self.ledger, &none_old, x, *t) {
+                  v(&["C05"], "hidden-write-missed", format!("task {t} wrote {:?}, which task {x} read in its latest execution without (transitively) requiring {t}, and the write returned", r));
+                  break;
+                }
+              }
+            }
+          }
         }
         Ev::RootStart { .. } => {}
         Ev::RootEnd { t, out } => {
@@ -783,8 +851,42 @@ impl<'a> Runner<'a> {
       }
     }
 
+    if aborted {
+      if let (Some((t, op, target, _)), Some(abort)) = (op_stack.last().copied(), res.abort.as_ref()) {
+        let diag = matches!(abort.kind, AbortKind::Cycle | AbortKind::Hidden | AbortKind::Overlap);
+        // A require of a task on the execution stack must be diagnosed as a cycle.
+        if let (OpK::Require, Target::Task(u)) = (op, target) {
+          if exec_stack.contains(&u) && abort.kind != AbortKind::Cycle && abort.kind != AbortKind::InjectedCrash {
+            violations.push(Violation::new(&["C07"], "cycle-not-diagnosed", step, format!("task {t} required task {u}, which is still executing; the build aborted with {:?} instead of a cyclic-dependency error: {}", abort.kind, abort.info.short())));
+          }
+        }
+        // A diagnosed violation on the writing side must be found before the resource is modified.
+        if diag && op == OpK::Write {
+          let start = slice.iter().rposition(|e| matches!(e, Ev::OpStart { .. })).unwrap_or(0);
+          if slice[start..].iter().any(|e| matches!(e, Ev::ResSet { .. } | Ev::ResWriteOpen { .. })) {
+            let props: &[&str] = if abort.kind == AbortKind::Overlap { &["C06"] } else { &["C05"] };
+            violations.push(Violation::new(props, "abort-after-modification", step, format!("the build aborted with {:?} for a write through the context, but the resource {:?} had already been opened or modified", abort.kind, target)));
+          }
+        }
+      }
+    }
     // End-of-session rules (only when the session returned).
     if !aborted {
+      // A build that returns leaves at most one writer per resource and every reader dependent on the writer.
+      let none_old: Vec<Option<ExecRec>> = vec![None; ntasks];
+      for r in prog.resources.iter() {
+        let writers: Vec<Tid> = (0..ntasks).filter(|x| self.ledger[*x].as_ref().map(|e| e.deps.iter().any(|d| d.kind == DepKind::Write && d.target == Target::Res(*r))).unwrap_or(false)).collect();
+        let fresh = |x: &Tid| executed.contains(x) || validated_ok.contains(x) || bu_reused.contains(x);
+        if writers.len() > 1 && writers.iter().any(|w| fresh(w)) { violations.push(Violation::new(&["C06"], "two-writers-after-build", step, format!("after the build returned, tasks {:?} are all recorded as writers of {:?}", writers, r))); }
+        if let Some(w) = writers.first() {
+          for x in (0..ntasks).filter(|x| x != w && fresh(x) && self.ledger[*x].as_ref().map(|e| e.deps.iter().any(|d| d.kind == DepKind::Read && d.target == Target::Res(*r))).unwrap_or(false)) {
+            if !ledger_path(&self.ledger, &none_old, x, *w) {
+              violations.push(Violation::new(&["C05"], "reader-without-path-after-build", step, format!("after the build returned, task {x}, which was executed or validated in it, is a recorded reader of {:?} without (transitively) requiring its writer {w}", r)));
+              break;
+            }
+          }
+        }
+      }
       for t in 0..ntasks {
         let p = &pass[t];
         if p.started && !executed.contains(&t) {
@@ -803,7 +905,7 @@ impl<'a> Runner<'a> {
       if res.check_errors != expected {
         violations.push(Violation::new(&["C18"], "check-errors-reported", step, format!("Session::dependency_check_errors = {:?} but the checkers returned errors {:?}", res.check_errors, expected)));
       }
-      if !injected.is_empty() { self.stats.add("fault_checker_error_fired", injected.len() as u64); }
+      if !injected.is_empty() { self.stats.add("fault_checker_error_fired", injected.len() as u64); self.errors_fired += injected.len() as u64; }
     } else {
       // Unwinding leaves executions unfinished.
       for t in 0..ntasks { if let Some(e) = self.ledger[t].as_mut() { if !e.completed { e.out = None; } } }
@@ -1076,7 +1178,13 @@ impl<'a> Runner<'a> {
     out.trace_hash = self.trace;
     out.steps = with_sim(|s| s.log.len() as u64);
     out.stats = std::mem::take(&mut self.stats);
-    out.nontrivial = self.reuse_and_exec;
+    out.nontrivial = match self.prop {
+      "C03" | "C04" => self.bu_nontrivial,
+      "C18" => self.errors_fired > 0,
+      "C19" => self.crashes_fired > 0 && self.td_after_abort_returned > 0,
+      "C05" | "C06" | "C07" | "C20" => self.diag_aborts > 0 || self.reuse_and_exec,
+      _ => self.reuse_and_exec,
+    };
     out
   }
 }
